@@ -9,6 +9,7 @@ require (
 	github.com/jonboulle/clockwork v0.5.0
 	golang.org/x/crypto v0.48.0
 	google.golang.org/grpc v1.79.1
+	google.golang.org/protobuf v1.36.11
 	pgregory.net/rapid v1.3.0
 )
 
@@ -50,7 +51,6 @@ require (
 	golang.org/x/text v0.34.0 // indirect
 	google.golang.org/genproto/googleapis/api v0.0.0-20260226221140-a57be14db171 // indirect
 	google.golang.org/genproto/googleapis/rpc v0.0.0-20260226221140-a57be14db171 // indirect
-	google.golang.org/protobuf v1.36.11 // indirect
 )
 
 replace github.com/drand/drand/v2 => /repo
